@@ -9,7 +9,9 @@
 (* parameters range over legal AND illegal values; Layout!Failures - the   *)
 (* documented rules - classifies the result.  An edit whose result is      *)
 (* realisable extends the base; an edit whose result is not realisable is  *)
-(* a single-edit violation and ends the behaviour (phase "dead").          *)
+(* a single-edit violation and ends the behaviour (phase "dead"; with      *)
+(* KeepDead = FALSE it is emitted but not entered, so a random walk goes   *)
+(* on from the realisable program).                                        *)
 (*                                                                         *)
 (* Edit parameters are chosen so that every reachable program is clearly   *)
 (* legal or clearly illegal by the reference (see harness/c14.py           *)
@@ -74,9 +76,10 @@ CurT == prog.types[cur]
 End(t) == LET ph == {i \in 1..Len(t.fields) : t.fields[i].k = "phys" /\ t.fields[i].size # Dyn /\ t.fields[i].start # Dyn}
           IN  MaxOf({t.fields[i].start + t.fields[i].size : i \in ph})
 NextFieldName(t) == FieldNames[Len(t.fields) + 1]
-\* where the next field goes: after the others; in a bits, a field that would not fit behind the
-\* others but fits the 64 bits on its own overlaps them from bit 0 (overlapping fields are legal)
-At(t, sz) == IF t.k = "bits" /\ sz # Dyn /\ sz <= 64 /\ End(t) + sz > 64 THEN 0 ELSE End(t)
+\* where the next field goes: after the others; in a bits, a 63- or 64-bit field (which can never
+\* follow the 8-bit `n') overlaps the others from bit 0 (overlapping fields are legal), so that
+\* legal 64-bit scalars exist while  8 + 57 = 65  still makes a bits that is only too big
+At(t, sz) == IF t.k = "bits" /\ sz \in {63, 64} THEN 0 ELSE End(t)
 
 \* which types may the current type mention?  (keeps containment acyclic: a type refers to its own
 \* nested types and to types of top-level groups created earlier, never the other way round)
@@ -151,9 +154,9 @@ VirtualFields(t) ==
 
 \* dynamic placements: a struct may be dynamically sized, a bits may not
 DynamicFields(t) ==
-  {[cls |-> "dynamic", f |-> Fld("phys", NextFieldName(t), st, sz, "UInt", 8, <<-1>>,
+  {[cls |-> "dynamic", f |-> Fld("phys", NextFieldName(t), p[1], p[2], "UInt", 8, <<-1>>,
                                   IF t.k = "struct" THEN <<BO("BigEndian")>> ELSE <<>>)] :
-     st \in {1, Dyn}, sz \in {Dyn, 2}}
+     p \in {q \in {1, Dyn} \X {Dyn, 2} : t.k = "struct" \/ q[1] = Dyn \/ q[2] = Dyn}}
   \cup {[cls |-> "dynamic", f |-> Fld("phys", NextFieldName(t), Dyn, 1, "UInt", 0, <<>>, <<>>)]}
 
 FieldChoices(t) ==
